@@ -426,4 +426,145 @@ theorem tailFin_bytes (x : Nat) (hx : x < B) (h : allB (· ≤ 24) 8 x) : tailFi
     fold_b _ _ _ _ _ _ _ _ (by omega) (by omega) (by omega) (by omega) (by omega) (by omega) (by omega) (by omega),
     fold_d _ _ _ _ _ _ _ _ (by omega) (by omega) (by omega) (by omega) (by omega) (by omega) (by omega) (by omega)]
   omega
+
+/-! ## the tail loop as a whole -/
+
+theorem allB_mono (p q : Nat → Prop) (H : ∀ b, p b → q b) : ∀ k x, allB p k x → allB q k x
+  | 0, _, _ => trivial
+  | k + 1, _, h => ⟨H _ h.1, allB_mono p q H k _ h.2⟩
+
+theorem B_pos : 0 < B := Nat.two_pow_pos 64
+
+theorem psum_nil : Bits.mpn_popcount [] = 0 := rfl
+theorem psum_cons (u : Nat) (us : List Nat) : Bits.mpn_popcount (u :: us) = Bits.popc u + Bits.mpn_popcount us := by
+  simp only [Bits.mpn_popcount, List.map_cons, List.sum_cons]
+
+theorem tailLoop_nil (x : Nat) : tailLoop [] x = x := by rw [tailLoop.eq_def]
+theorem tailLoop_cons (u : Nat) (us : List Nat) (x : Nat) : tailLoop (u :: us) x = tailLoop us ((x + tailLimb u) % B) := by rw [tailLoop.eq_def]
+
+/-- one pass of popcount.c:96-102: x += p0 keeps the byte fields separate -/
+theorem tail_step (u x c : Nat) (hu : u < B) (h : allB (· ≤ c) 8 x) (hc : c + 8 < 256) :
+    allB (· ≤ c + 8) 8 ((x + tailLimb u) % B) ∧
+      sumB (fun b => b) 8 ((x + tailLimb u) % B) = sumB (fun b => b) 8 x + Bits.popc u := by
+  have ht : allB (· ≤ 8) 8 (tailLimb u) := by
+    rw [tailLimb_bytes u hu]
+    exact allB_mapB pc8 (· ≤ 8) (fun b hb => ⟨by have := pc8_le b hb; omega, pc8_le b hb⟩) 8 u
+  have hs : sumB (fun b => b) 8 (tailLimb u) = Bits.popc u := by
+    rw [tailLimb_bytes u hu, sumB_comp pc8 _ (fun b hb => by have := pc8_le b hb; omega), popc_bytes]
+  have A := allB_add c 8 hc 8 x (tailLimb u) h ht
+  refine ⟨by rw [B_256]; exact allB_mod _ 8 _ A.1, ?_⟩
+  rw [B_256, sumB_mod, A.2, hs]
+
+theorem tailLoop_inv : ∀ (us : List Nat) (x c : Nat), (∀ u ∈ us, u < B) → x < B → allB (· ≤ c) 8 x →
+    c + 8 * us.length < 256 →
+    tailLoop us x < B ∧ allB (· ≤ c + 8 * us.length) 8 (tailLoop us x) ∧
+      sumB (fun b => b) 8 (tailLoop us x) = sumB (fun b => b) 8 x + Bits.mpn_popcount us
+  | [], x, c, _, hx, h, _ => by
+    rw [tailLoop_nil, psum_nil, List.length_nil, Nat.mul_zero, Nat.add_zero, Nat.add_zero]
+    exact ⟨hx, h, rfl⟩
+  | u :: us, x, c, hl, hx, h, hc => by
+    have hu : u < B := hl u (List.mem_cons_self ..)
+    have hl' : ∀ v ∈ us, v < B := fun v hv => hl v (List.mem_cons_of_mem _ hv)
+    rw [List.length_cons] at hc
+    have S := tail_step u x c hu h (by omega)
+    have ih := tailLoop_inv us ((x + tailLimb u) % B) (c + 8) hl' (Nat.mod_lt _ B_pos) S.1 (by omega)
+    have e : c + 8 + 8 * us.length = c + 8 * (us.length + 1) := by omega
+    rw [tailLoop_cons, psum_cons, List.length_cons, ← e]
+    refine ⟨ih.1, ih.2.1, ?_⟩
+    rw [ih.2.2, S.2]; omega
+
+theorem allB_zero : ∀ k, allB (· ≤ 0) k 0
+  | 0 => trivial
+  | k + 1 => ⟨Nat.le_refl _, allB_zero k⟩
+theorem sumB_zero : ∀ k, sumB (fun b => b) k 0 = 0
+  | 0 => rfl
+  | k + 1 => by rw [sumB, sumB_zero k]
+
+/-- popcount.c:93-114 for at most 3 remaining limbs: the tail adds exactly their bit count. -/
+theorem tail_popc (us : List Nat) (hl : ∀ u ∈ us, u < B) (hn : us.length ≤ 3) :
+    tailFin (tailLoop us 0) = Bits.mpn_popcount us := by
+  have I := tailLoop_inv us 0 0 hl B_pos (allB_zero 8) (by omega)
+  have h24 : allB (· ≤ 24) 8 (tailLoop us 0) :=
+    allB_mono _ _ (fun b (hb : b ≤ 0 + 8 * us.length) => (by omega : b ≤ 24)) 8 _ I.2.1
+  rw [tailFin_bytes _ I.1 h24, I.2.2, sumB_zero, Nat.zero_add]
+
+/-! ## the outer loop and the function -/
+
+theorem blocks_zero (up : List Nat) (r : Nat) : blocks 0 up r = (r, up) := by rw [blocks.eq_def]
+theorem blocks_succ (i u0 u1 u2 u3 : Nat) (up : List Nat) (r : Nat) :
+    blocks (i + 1) (u0 :: u1 :: u2 :: u3 :: up) r = blocks i up ((r + block u0 u1 u2 u3) % B) := by rw [blocks.eq_def]
+
+theorem take4 (i u0 u1 u2 u3 : Nat) (up : List Nat) :
+    (u0 :: u1 :: u2 :: u3 :: up).take (4 * (i + 1)) = u0 :: u1 :: u2 :: u3 :: up.take (4 * i) := by
+  rw [show 4 * (i + 1) = 4 * i + 1 + 1 + 1 + 1 by omega]
+  simp only [List.take_succ_cons]
+theorem drop4 (i u0 u1 u2 u3 : Nat) (up : List Nat) :
+    (u0 :: u1 :: u2 :: u3 :: up).drop (4 * (i + 1)) = up.drop (4 * i) := by
+  rw [show 4 * (i + 1) = 4 * i + 1 + 1 + 1 + 1 by omega]
+  simp only [List.drop_succ_cons]
+
+theorem mod_acc (r b s m : Nat) : ((r + b) % m + s) % m = (r + (b + s)) % m := by
+  rw [Nat.add_mod, Nat.mod_mod, ← Nat.add_mod, Nat.add_assoc]
+
+theorem blocks_popc : ∀ (i : Nat) (up : List Nat) (r : Nat), 4 * i ≤ up.length → (∀ u ∈ up, u < B) →
+    blocks i up r = ((r + Bits.mpn_popcount (up.take (4 * i))) % B, up.drop (4 * i)) ∨ ¬ r < B
+  | 0, up, r, _, _ => by
+    by_cases hr : r < B
+    · left; rw [blocks_zero, Nat.mul_zero, List.take_zero, List.drop_zero, psum_nil, Nat.add_zero, Nat.mod_eq_of_lt hr]
+    · right; exact hr
+  | i + 1, u0 :: u1 :: u2 :: u3 :: up', r, hlen, hl => by
+    left
+    have h0 : u0 < B := hl u0 (by simp only [List.mem_cons, true_or])
+    have h1 : u1 < B := hl u1 (by simp only [List.mem_cons, true_or, or_true])
+    have h2 : u2 < B := hl u2 (by simp only [List.mem_cons, true_or, or_true])
+    have h3 : u3 < B := hl u3 (by simp only [List.mem_cons, true_or, or_true])
+    have hl' : ∀ v ∈ up', v < B := fun v hv => hl v (by simp only [List.mem_cons, hv, or_true])
+    have hlen' : 4 * i ≤ up'.length := by simp only [List.length_cons] at hlen; omega
+    have ih := blocks_popc i up' ((r + block u0 u1 u2 u3) % B) hlen' hl'
+    rcases ih with ih | ih
+    · refine (blocks_succ i u0 u1 u2 u3 up' r).trans (ih.trans ?_)
+      rw [take4, drop4, psum_cons, psum_cons, psum_cons, psum_cons, mod_acc, block_popc u0 u1 u2 u3 h0 h1 h2 h3]
+      simp only [Nat.add_assoc]
+    · exact absurd (Nat.mod_lt _ B_pos) ih
+  | i + 1, [], _, hlen, _ => by simp only [List.length_nil] at hlen; omega
+  | i + 1, [_], _, hlen, _ => by simp only [List.length_cons, List.length_nil] at hlen; omega
+  | i + 1, [_, _], _, hlen, _ => by simp only [List.length_cons, List.length_nil] at hlen; omega
+  | i + 1, [_, _, _], _, hlen, _ => by simp only [List.length_cons, List.length_nil] at hlen; omega
+
+theorem psum_split (u : List Nat) (m : Nat) :
+    Bits.mpn_popcount u = Bits.mpn_popcount (u.take m) + Bits.mpn_popcount (u.drop m) := by
+  unfold Bits.mpn_popcount
+  rw [← List.sum_append, ← List.map_append, List.take_append_drop]
+
+/-- popcount.c:37-118 written with the loops' results named -/
+theorem popcount_unfold (u : List Nat) : mpn_popcount u =
+    (if u.length &&& 3 ≠ 0 then
+      ((blocks (u.length >>> 2) u 0).1 + tailFin (tailLoop ((blocks (u.length >>> 2) u 0).2.take (u.length &&& 3)) 0)) % B
+     else (blocks (u.length >>> 2) u 0).1) := by
+  rw [mpn_popcount.eq_def]
+
+/-- popcount.c:37-118 = the sum of the per-limb bit counts, modulo 2^64 (mp_bitcnt_t), for every limb list. -/
+theorem popcount_mod (u : List Nat) (hu : ∀ x ∈ u, x < B) : mpn_popcount u = Bits.mpn_popcount u % B := by
+  have hdiv : u.length >>> 2 = u.length / 4 := by rw [Nat.shiftRight_eq_div_pow]
+  have hand : u.length &&& 3 = u.length % 4 := Nat.and_two_pow_sub_one_eq_mod u.length 2
+  have hb := (blocks_popc (u.length / 4) u 0 (by omega) hu).resolve_right (fun h => h B_pos)
+  have sp := psum_split u (4 * (u.length / 4))
+  rw [popcount_unfold, hdiv, hand, hb, Nat.zero_add]
+  by_cases h : u.length % 4 = 0
+  · rw [if_neg (by rw [h]; exact fun h => h rfl)]
+    have e : 4 * (u.length / 4) = u.length := by omega
+    rw [e, List.take_length]
+  · rw [if_pos h]
+    have hlen : (u.drop (4 * (u.length / 4))).length = u.length % 4 := by rw [List.length_drop]; omega
+    have ht : (u.drop (4 * (u.length / 4))).take (u.length % 4) = u.drop (4 * (u.length / 4)) :=
+      List.take_of_length_le (Nat.le_of_eq hlen)
+    have hl : ∀ x ∈ u.drop (4 * (u.length / 4)), x < B := fun x hx => hu x (List.mem_of_mem_drop hx)
+    show ((Bits.mpn_popcount (u.take (4 * (u.length / 4)))) % B +
+      tailFin (tailLoop ((u.drop (4 * (u.length / 4))).take (u.length % 4)) 0)) % B = _
+    rw [ht, tail_popc _ hl (by omega), sp, Nat.mod_add_mod]
+
+theorem psum_le : ∀ u : List Nat, Bits.mpn_popcount u ≤ 64 * u.length
+  | [] => by rw [psum_nil]; exact Nat.zero_le _
+  | x :: xs => by
+    rw [psum_cons, List.length_cons]; have := popc_le_64 x; have := psum_le xs; omega
 end Mpir.Swar
